@@ -55,7 +55,7 @@ func main() {
 									case *types.Const:
 										lines = append(lines, name+"\t"+m.Rel(p.PkgPath)+"\tconst "+nm.Name+"\t"+types.TypeString(o.Type(), q)+"="+o.Val().ExactString())
 									case *types.Var:
-										lines = append(lines, name+"\t"+m.Rel(p.PkgPath)+"\tvar "+nm.Name+"\t"+types.TypeString(o.Type(), q))
+										lines = append(lines, name+"\t"+m.Rel(p.PkgPath)+"\tvar "+nm.Name+"\t"+types.TypeString(o.Type(), q)+"\t"+strings.Join(core.VarInitLiterals(p, o), "\x1f"))
 									}
 								}
 							}
@@ -82,7 +82,7 @@ func main() {
 							if fn, ok := p.TypesInfo.Defs[fd.Name].(*types.Func); ok {
 								shape = core.SigShape(fn)
 							}
-							lines = append(lines, core.FuncKey(name, m.Rel(p.PkgPath), fd)+"\t"+shape)
+							lines = append(lines, core.FuncKey(name, m.Rel(p.PkgPath), fd)+"\t"+shape+"\t"+strings.Join(core.FuncFingerprint(p.TypesInfo, m.Path, fd), "\x1f"))
 						}
 					}
 				}
